@@ -248,6 +248,9 @@ def construct(cls, kind, values):
     """build an instance directly (values: dict field -> value, absent = use the default)"""
     if kind == "typeddict":
         return dict(values)
+    if kind == "attrs":
+        # attrs strips the leading underscores of a private attribute in __init__
+        return cls(**{k.lstrip("_"): v for k, v in values.items()})
     return cls(**values)
 
 
